@@ -246,8 +246,11 @@ def permOf (e : Entry) : Nat := e.mode % 512
 
 def fileNode (i : Nat) (e : Entry) : Node := .file e.sum (permOf e) (some i) (e.size == 0)
 
-/-- F07g: the directory of the entry is reached through a symlink -/
+/-- F07g: the header name is not the canonical spelling of the node it reaches — the directory of the
+entry is reached through a symlink, or the name itself is not a clean path (`s//f`: `installedFiles` is
+keyed by the raw header name, every backend resolves it to the node `s/f`) -/
 def aliasFlag (t : Tree) (e : Entry) : List Flag :=
+  if joinNames (parts e.name) ≠ e.name then [.alias e.name] else
   match parentOf t (parts e.name) with
   | some d => if d = (parts e.name).dropLast then [] else [.alias e.name]
   | none => []
